@@ -15,6 +15,7 @@ import (
 
 	api_v1 "k8s.io/api/core/v1"
 	discovery_v1 "k8s.io/api/discovery/v1"
+	networking "k8s.io/api/networking/v1"
 	meta_v1 "k8s.io/apimachinery/pkg/apis/meta/v1"
 	"k8s.io/apimachinery/pkg/util/intstr"
 	"k8s.io/client-go/tools/record"
@@ -39,10 +40,13 @@ func subselector(r *vh.Rng, n int) map[string]string {
 }
 
 type ctl struct {
-	want map[string][]string // per service: the addresses of all pods / "svc|sub": of the labelled pods, each once, sorted
-	v    *k8s.VerifC09
-	vs   *conf_v1.VirtualServer
-	vsrs []*conf_v1.VirtualServerRoute
+	changes []string // what the Configuration reported when unchanged objects were delivered again
+	cmVS    *conf_v1.VirtualServer
+	cmIngs  []*networking.Ingress
+	want    map[string][]string // per service: the addresses of all pods / "svc|sub": of the labelled pods, each once, sorted
+	v       *k8s.VerifC09
+	vs      *conf_v1.VirtualServer
+	vsrs    []*conf_v1.VirtualServerRoute
 }
 
 var ctlCache = map[int]*ctl{}
@@ -176,6 +180,71 @@ func buildTSCtl(c *Case) *configs.TransportServerEx {
 	k := getCtlFor(c)
 	ex := tsObjects(c)
 	return k.v.CreateTransportServerEx(ex.TransportServer, ex.ListenerPort)
+}
+
+// ---- cert-manager: one VirtualServer and 2-3 solver Ingresses for its host, through the real
+// Configuration (cert-manager enabled); every round an unchanged object is delivered again (a resync)
+
+func solverIngress(ns, host string, i int) *networking.Ingress {
+	pt := networking.PathTypeImplementationSpecific
+	cls := "nginx"
+	return &networking.Ingress{
+		ObjectMeta: meta_v1.ObjectMeta{Name: fmt.Sprintf("cm-acme-http-solver-%c%d", 'z'-rune(i), i), Namespace: ns, Generation: 1,
+			Labels: map[string]string{"acme.cert-manager.io/http01-solver": "true"}},
+		Spec: networking.IngressSpec{IngressClassName: &cls, Rules: []networking.IngressRule{{Host: host, IngressRuleValue: networking.IngressRuleValue{
+			HTTP: &networking.HTTPIngressRuleValue{Paths: []networking.HTTPIngressPath{{Path: fmt.Sprintf("/.well-known/acme-challenge/token-%d", i), PathType: &pt,
+				Backend: networking.IngressBackend{Service: &networking.IngressServiceBackend{Name: fmt.Sprintf("cm-acme-http-solver-svc-%d", i),
+					Port: networking.ServiceBackendPort{Number: 8089}}}}}}}}}},
+	}
+}
+
+func getCtlCM(c *Case) *ctl {
+	if k, ok := ctlCache[c.ID]; ok {
+		return k
+	}
+	k := &ctl{v: k8s.NewVerifC09CertManager(c.Plus), want: map[string][]string{}}
+	p := map[string]int{"ups": c.P["ups"], "eps": c.P["eps"], "mix": c.P["mix"]}
+	ex := buildVS(vh.NewRng(c.Seed), p)
+	vs := ex.VirtualServer
+	vs.Generation = 1
+	vs.Spec.IngressClass = "nginx"
+	for i, u := range vs.Spec.Upstreams {
+		k.populate(vs.Namespace, u.Service, int32(u.Port), i, nil, c.P["eps"]+2)
+	}
+	k.cmVS = vs
+	first := k.v.DeliverVirtualServer(vs)
+	n := c.P["solvers"]
+	if n < 2 {
+		n = 2
+	}
+	for i := 0; i < n; i++ {
+		ing := solverIngress(vs.Namespace, vs.Spec.Host, i)
+		k.populate(vs.Namespace, ing.Spec.Rules[0].HTTP.Paths[0].Backend.Service.Name, 8089, 10+i, nil, 2)
+		k.cmIngs = append(k.cmIngs, ing)
+		first = append(first, k.v.DeliverIngress(ing)...)
+	}
+	_ = first // the initial deliveries legitimately report changes
+	ctlCache[c.ID] = k
+	return k
+}
+
+// buildCMResync: deliver one of the UNCHANGED objects again, then what the controller hands to the Configurator
+func buildCMResync(c *Case, round int) []*configs.VirtualServerEx {
+	k := getCtlCM(c)
+	if round > 0 {
+		var rep []string
+		if j := round % (len(k.cmIngs) + 1); j < len(k.cmIngs) {
+			rep = k.v.DeliverIngress(k.cmIngs[j])
+		} else {
+			rep = k.v.DeliverVirtualServer(k.cmVS)
+		}
+		for _, x := range rep {
+			if len(k.changes) < 6 {
+				k.changes = append(k.changes, fmt.Sprintf("round %d: %s", round, x))
+			}
+		}
+	}
+	return k.v.VirtualServerExes()
 }
 
 // buildVSCtl: one sync of the controller for the VirtualServer of the case
